@@ -3,7 +3,9 @@ C02 — the reader reports what the ELF specification says is in the file.
 Record level: layouts, field decoders, membership rule.
 -/
 import ElfioVerif.Lemmas.Records
-import ElfioVerif.Model.Load
+import ElfioVerif.Lemmas.LoadSpec
+set_option linter.unusedSimpArgs false
+set_option linter.unusedVariables false
 namespace ElfioVerif.C02
 open Gen
 
@@ -178,5 +180,714 @@ theorem member_eq_spec (g : Seg) (b : SecBuf)
   rcases Bool.eq_false_or_eq_true (b.flags.toNat / 1024 % 2 == 1) with hT | hT <;>
   rcases Bool.eq_false_or_eq_true (g.stype.toNat == 7) with hG | hG <;>
   simp [hA, hT, hG]
+
+/-! ## Whole-load theorems
+
+Specification side first (written against Spec/Records.lean only), then the bridge from the
+specification-level well-formedness to the numeric hypotheses of Lemmas/LoadSpec.lean, then
+`load_eq_spec`. -/
+
+/-! ### the specification's view of an image -/
+
+def identByte (img : Bytes) (i : Nat) : Nat := (img.getD i 0).toNat
+def clsOf (img : Bytes) : Cls := if identByte img Spec.EI_CLASS = Spec.ELFCLASS64 then .c64 else .c32
+def encOf (img : Bytes) : Enc := if identByte img Spec.EI_DATA = Spec.ELFDATA2MSB then .msb else .lsb
+/-- ELF-header field by name -/
+def eh (img : Bytes) (f : String) : Nat := Spec.get (Spec.ehdrL (clsOf img)) (encOf img) img 0 f
+def shBase (img : Bytes) (i : Nat) : Nat := eh img "e_shoff" + i * eh img "e_shentsize"
+def phBase (img : Bytes) (j : Nat) : Nat := eh img "e_phoff" + j * eh img "e_phentsize"
+/-- field of section header `i` / program header `j` by name -/
+def sh (img : Bytes) (i : Nat) (f : String) : Nat := Spec.get (Spec.shdrL (clsOf img)) (encOf img) img (shBase img i) f
+def ph (img : Bytes) (j : Nat) (f : String) : Nat := Spec.get (Spec.phdrL (clsOf img)) (encOf img) img (phBase img j) f
+def occupiesFile (ty : Nat) : Bool := ty != Spec.SHT_NULL && ty != Spec.SHT_NOBITS
+def segHasData (img : Bytes) (j : Nat) : Bool := ph img j "p_type" != Spec.PT_NULL && ph img j "p_filesz" != 0
+/-- the file bytes of section `i` / segment `j` -/
+def secFileBytes (img : Bytes) (i : Nat) : Bytes :=
+  if occupiesFile (sh img i "sh_type") then slice img (sh img i "sh_offset") (sh img i "sh_size") else []
+def segFileBytes (img : Bytes) (j : Nat) : Bytes :=
+  if segHasData img j then slice img (ph img j "p_offset") (ph img j "p_filesz") else []
+/-- the section-name string table -/
+def shstrtab (img : Bytes) : Option Bytes :=
+  if eh img "e_shstrndx" = Spec.SHN_UNDEF then none else some (secFileBytes img (eh img "e_shstrndx"))
+def secName (img : Bytes) (i : Nat) : Bytes :=
+  match shstrtab img with
+  | none => []
+  | some T => (Spec.cstrAt T (sh img i "sh_name")).getD []
+/-- the specification's members of segment `j` -/
+def members (img : Bytes) (j : Nat) : List Nat :=
+  (List.range (eh img "e_shnum")).filter (fun i =>
+    Spec.inSegment (sh img i "sh_flags") (sh img i "sh_addr") (sh img i "sh_offset") (sh img i "sh_size")
+      (ph img j "p_type") (ph img j "p_offset") (ph img j "p_vaddr") (ph img j "p_filesz") (ph img j "p_memsz"))
+
+/-- **well-formed ELF image** (decidable; specification vocabulary only) -/
+def WellFormedImage (img : Bytes) : Prop :=
+  img.take 4 = Spec.ELFMAG ∧
+  (identByte img Spec.EI_CLASS = Spec.ELFCLASS32 ∨ identByte img Spec.EI_CLASS = Spec.ELFCLASS64) ∧
+  (identByte img Spec.EI_DATA = Spec.ELFDATA2LSB ∨ identByte img Spec.EI_DATA = Spec.ELFDATA2MSB) ∧
+  Spec.ehdrSize (clsOf img) ≤ img.length ∧ img.length < 9223372036854775808 ∧
+  (eh img "e_shnum" ≠ 0 → Spec.shdrSize (clsOf img) ≤ eh img "e_shentsize") ∧
+  (eh img "e_phnum" ≠ 0 → Spec.phdrSize (clsOf img) ≤ eh img "e_phentsize") ∧
+  (∀ i, i < eh img "e_shnum" →
+    shBase img i + Spec.shdrSize (clsOf img) ≤ img.length ∧
+    (occupiesFile (sh img i "sh_type") = true → sh img i "sh_offset" + sh img i "sh_size" ≤ img.length) ∧
+    sh img i "sh_addr" + sh img i "sh_size" < 18446744073709551616 ∧
+    sh img i "sh_offset" + sh img i "sh_size" < 18446744073709551616) ∧
+  (∀ j, j < eh img "e_phnum" →
+    phBase img j + Spec.phdrSize (clsOf img) ≤ img.length ∧
+    (segHasData img j = true → ph img j "p_offset" + ph img j "p_filesz" ≤ img.length) ∧
+    ph img j "p_vaddr" + ph img j "p_memsz" < 18446744073709551616 ∧
+    ph img j "p_offset" + ph img j "p_filesz" < 18446744073709551616) ∧
+  (eh img "e_shstrndx" = Spec.SHN_UNDEF ∨ eh img "e_shstrndx" < eh img "e_shnum") ∧
+  (eh img "e_shstrndx" ≠ Spec.SHN_UNDEF → ∀ i, i < eh img "e_shnum" →
+    (Spec.cstrAt (secFileBytes img (eh img "e_shstrndx")) (sh img i "sh_name")).isSome = true)
+
+instance (img : Bytes) : Decidable (WellFormedImage img) := by
+  unfold WellFormedImage; infer_instance
+
+/-! ### bridge: specification fields of the image = model fields of the decoded records -/
+
+theorem slice_slice (b : Bytes) (a n o w : Nat) (h : o + w ≤ n) :
+    slice (slice b a n) o w = slice b (a + o) w := by
+  unfold slice
+  apply List.ext_getElem?
+  intro i
+  simp only [List.getElem?_take, List.getElem?_drop]
+  repeat' split
+  all_goals first | rfl | omega | (exfalso; omega) | (congr 1; omega) | (simp_all; try omega)
+
+theorem get_slice (L : Spec.Layout) (enc : Enc) (img : Bytes) (base n : Nat) (name : String)
+    (h : (Spec.field L name).1 + (Spec.field L name).2 ≤ n) :
+    Spec.get L enc (slice img base n) 0 name = Spec.get L enc img base name := by
+  unfold Spec.get
+  simp only [Nat.zero_add]
+  rw [slice_slice _ _ _ _ _ h]
+
+theorem ehdr_bridge (img : Bytes) (c : Cls) (enc : Enc) (hl : ehdrSize c ≤ img.length) :
+    (Hdr.e_type c enc (slice img 0 (ehdrSize c))).toNat = Spec.get (Spec.ehdrL c) enc img 0 "e_type" ∧
+    (Hdr.e_machine c enc (slice img 0 (ehdrSize c))).toNat = Spec.get (Spec.ehdrL c) enc img 0 "e_machine" ∧
+    (Hdr.e_version c enc (slice img 0 (ehdrSize c))).toNat = Spec.get (Spec.ehdrL c) enc img 0 "e_version" ∧
+    (Hdr.e_entry c enc (slice img 0 (ehdrSize c))).toNat = Spec.get (Spec.ehdrL c) enc img 0 "e_entry" ∧
+    (Hdr.e_phoff c enc (slice img 0 (ehdrSize c))).toNat = Spec.get (Spec.ehdrL c) enc img 0 "e_phoff" ∧
+    (Hdr.e_shoff c enc (slice img 0 (ehdrSize c))).toNat = Spec.get (Spec.ehdrL c) enc img 0 "e_shoff" ∧
+    (Hdr.e_flags c enc (slice img 0 (ehdrSize c))).toNat = Spec.get (Spec.ehdrL c) enc img 0 "e_flags" ∧
+    (Hdr.e_ehsize c enc (slice img 0 (ehdrSize c))).toNat = Spec.get (Spec.ehdrL c) enc img 0 "e_ehsize" ∧
+    (Hdr.e_phentsize c enc (slice img 0 (ehdrSize c))).toNat = Spec.get (Spec.ehdrL c) enc img 0 "e_phentsize" ∧
+    (Hdr.e_phnum c enc (slice img 0 (ehdrSize c))).toNat = Spec.get (Spec.ehdrL c) enc img 0 "e_phnum" ∧
+    (Hdr.e_shentsize c enc (slice img 0 (ehdrSize c))).toNat = Spec.get (Spec.ehdrL c) enc img 0 "e_shentsize" ∧
+    (Hdr.e_shnum c enc (slice img 0 (ehdrSize c))).toNat = Spec.get (Spec.ehdrL c) enc img 0 "e_shnum" ∧
+    (Hdr.e_shstrndx c enc (slice img 0 (ehdrSize c))).toNat = Spec.get (Spec.ehdrL c) enc img 0 "e_shstrndx" := by
+  have hlen : ehdrSize c ≤ (slice img 0 (ehdrSize c)).length := by
+    rw [slice_length_of_le (by omega)]; exact Nat.le_refl _
+  have h := ehdr_fields_eq_spec c enc (slice img 0 (ehdrSize c)) hlen
+  have g := fun name hh => get_slice (Spec.ehdrL c) enc img 0 (ehdrSize c) name hh
+  rw [g "e_type" (by cases c <;> decide), g "e_machine" (by cases c <;> decide),
+    g "e_version" (by cases c <;> decide), g "e_entry" (by cases c <;> decide),
+    g "e_phoff" (by cases c <;> decide), g "e_shoff" (by cases c <;> decide),
+    g "e_flags" (by cases c <;> decide), g "e_ehsize" (by cases c <;> decide),
+    g "e_phentsize" (by cases c <;> decide), g "e_phnum" (by cases c <;> decide),
+    g "e_shentsize" (by cases c <;> decide), g "e_shnum" (by cases c <;> decide),
+    g "e_shstrndx" (by cases c <;> decide)] at h
+  exact h
+
+theorem secHdr_bridge (img : Bytes) (c : Cls) (enc : Enc) (k : Nat) (isLazy : Bool) (idx : Nat)
+    (hk : k + shdrSize c ≤ img.length) :
+    (secHdr c enc img k isLazy idx).nameOff.toNat = Spec.get (Spec.shdrL c) enc img k "sh_name" ∧
+    (secHdr c enc img k isLazy idx).stype.toNat = Spec.get (Spec.shdrL c) enc img k "sh_type" ∧
+    (secHdr c enc img k isLazy idx).flags.toNat = Spec.get (Spec.shdrL c) enc img k "sh_flags" ∧
+    (secHdr c enc img k isLazy idx).addr.toNat = Spec.get (Spec.shdrL c) enc img k "sh_addr" ∧
+    (secHdr c enc img k isLazy idx).offset.toNat = Spec.get (Spec.shdrL c) enc img k "sh_offset" ∧
+    (secHdr c enc img k isLazy idx).size.toNat = Spec.get (Spec.shdrL c) enc img k "sh_size" ∧
+    (secHdr c enc img k isLazy idx).link.toNat = Spec.get (Spec.shdrL c) enc img k "sh_link" ∧
+    (secHdr c enc img k isLazy idx).info.toNat = Spec.get (Spec.shdrL c) enc img k "sh_info" ∧
+    (secHdr c enc img k isLazy idx).addrAlign.toNat = Spec.get (Spec.shdrL c) enc img k "sh_addralign" ∧
+    (secHdr c enc img k isLazy idx).entSize.toNat = Spec.get (Spec.shdrL c) enc img k "sh_entsize" := by
+  have hlen : shdrSize c ≤ (slice img k (shdrSize c)).length := by
+    rw [slice_length_of_le hk]; exact Nat.le_refl _
+  have h := shdr_fields_eq_spec c enc (slice img k (shdrSize c))
+    (secInit c (BitVec.ofNat 64 img.length) true isLazy idx) hlen
+  have g := fun name hh => get_slice (Spec.shdrL c) enc img k (shdrSize c) name hh
+  simp only [] at h
+  rw [g "sh_name" (by cases c <;> decide), g "sh_type" (by cases c <;> decide),
+    g "sh_flags" (by cases c <;> decide), g "sh_addr" (by cases c <;> decide),
+    g "sh_offset" (by cases c <;> decide), g "sh_size" (by cases c <;> decide),
+    g "sh_link" (by cases c <;> decide), g "sh_info" (by cases c <;> decide),
+    g "sh_addralign" (by cases c <;> decide), g "sh_entsize" (by cases c <;> decide)] at h
+  exact h
+
+theorem segHdr_bridge (img : Bytes) (c : Cls) (enc : Enc) (k : Nat) (isLazy : Bool)
+    (hk : k + phdrSize c ≤ img.length) :
+    (segHdr_ls c enc img k isLazy).stype.toNat = Spec.get (Spec.phdrL c) enc img k "p_type" ∧
+    (segHdr_ls c enc img k isLazy).flags.toNat = Spec.get (Spec.phdrL c) enc img k "p_flags" ∧
+    (segHdr_ls c enc img k isLazy).offset.toNat = Spec.get (Spec.phdrL c) enc img k "p_offset" ∧
+    (segHdr_ls c enc img k isLazy).vaddr.toNat = Spec.get (Spec.phdrL c) enc img k "p_vaddr" ∧
+    (segHdr_ls c enc img k isLazy).paddr.toNat = Spec.get (Spec.phdrL c) enc img k "p_paddr" ∧
+    (segHdr_ls c enc img k isLazy).filesz.toNat = Spec.get (Spec.phdrL c) enc img k "p_filesz" ∧
+    (segHdr_ls c enc img k isLazy).memsz.toNat = Spec.get (Spec.phdrL c) enc img k "p_memsz" ∧
+    (segHdr_ls c enc img k isLazy).align.toNat = Spec.get (Spec.phdrL c) enc img k "p_align" := by
+  have hlen : phdrSize c ≤ (slice img k (phdrSize c)).length := by
+    rw [slice_length_of_le hk]; exact Nat.le_refl _
+  have h := phdr_fields_eq_spec c enc (slice img k (phdrSize c))
+    (segInit_ls (BitVec.ofNat 64 img.length) isLazy) hlen
+  have g := fun name hh => get_slice (Spec.phdrL c) enc img k (phdrSize c) name hh
+  simp only [] at h
+  rw [g "p_type" (by cases c <;> decide), g "p_flags" (by cases c <;> decide),
+    g "p_offset" (by cases c <;> decide), g "p_vaddr" (by cases c <;> decide),
+    g "p_paddr" (by cases c <;> decide), g "p_filesz" (by cases c <;> decide),
+    g "p_memsz" (by cases c <;> decide), g "p_align" (by cases c <;> decide)] at h
+  exact h
+
+theorem beq32 (t : BitVec 32) (k : Nat) (hk : k < 4294967296) : (t == BitVec.ofNat 32 k) = (t.toNat == k) := by
+  rw [Bool.eq_iff_iff]
+  simp only [beq_iff_eq]
+  constructor
+  · intro h; rw [h]; simp only [BitVec.toNat_ofNat, Nat.reducePow]; omega
+  · intro h; apply BitVec.eq_of_toNat_eq; simp only [BitVec.toNat_ofNat, Nat.reducePow]; omega
+
+theorem isNullOrNobits_eq (t : BitVec 32) : isNullOrNobitsTy t = !occupiesFile t.toNat := by
+  unfold isNullOrNobitsTy occupiesFile
+  rw [beq32 t SHT_NULL (by decide), beq32 t SHT_NOBITS (by decide)]
+  have e1 : SHT_NULL = Spec.SHT_NULL := rfl
+  have e2 : SHT_NOBITS = Spec.SHT_NOBITS := rfl
+  rw [e1, e2]
+  simp only [bne]
+  generalize (t.toNat == Spec.SHT_NULL) = a
+  generalize (t.toNat == Spec.SHT_NOBITS) = b
+  cases a <;> cases b <;> rfl
+
+theorem segSkip_eq (g : Seg) : segSkip g = (g.stype.toNat == Spec.PT_NULL || g.filesz.toNat == 0) := by
+  unfold segSkip seg64_load_data_skip
+  have e1 : BitVec.signExtend 64 0#32 = 0#64 := by decide
+  rw [e1, Bool.eq_iff_iff]
+  simp only [Bool.or_eq_true, beq_iff_eq]
+  have e2 : PT_NULL = Spec.PT_NULL := rfl
+  constructor
+  · rintro (h | h)
+    · left; rw [← h]; simp only [BitVec.toNat_ofNat, Nat.reducePow, ← e2]; decide
+    · right; rw [← h]; rfl
+  · rintro (h | h)
+    · left; apply BitVec.eq_of_toNat_eq; rw [h]; decide
+    · right; apply BitVec.eq_of_toNat_eq; rw [h]; rfl
+
+theorem filter_index_range' {α} (p : α → Bool) (idx : α → Nat) (q : Nat → Bool) :
+    ∀ (l : List α) (s : Nat), (∀ i (h : i < l.length), idx l[i] = s + i) →
+      (∀ i (h : i < l.length), p l[i] = q (s + i)) →
+      (l.filter p).map idx = (List.range' s l.length).filter q := by
+  intro l
+  induction l with
+  | nil => intro s _ _; rfl
+  | cons a l ih =>
+    intro s h1 h2
+    have ha1 := h1 0 (by simp)
+    have ha2 := h2 0 (by simp)
+    simp only [List.getElem_cons_zero, Nat.add_zero] at ha1 ha2
+    have ih' := ih (s + 1)
+      (fun i h => by have := h1 (i + 1) (by simp; omega); simp only [List.getElem_cons_succ] at this; omega)
+      (fun i h => by have := h2 (i + 1) (by simp; omega); simp only [List.getElem_cons_succ] at this
+                     rw [this]; congr 1; omega)
+    simp only [List.length_cons, List.range'_succ, List.filter_cons, ha2]
+    cases q s
+    · simpa using ih'
+    · simp [ha1, ih']
+
+theorem filter_index_range {α} (p : α → Bool) (idx : α → Nat) (q : Nat → Bool) (l : List α)
+    (h1 : ∀ i (h : i < l.length), idx l[i] = i) (h2 : ∀ i (h : i < l.length), p l[i] = q i) :
+    (l.filter p).map idx = (List.range l.length).filter q := by
+  rw [List.range_eq_range']
+  exact filter_index_range' p idx q l 0 (by simpa using h1) (by simpa using h2)
+
+theorem entsize_ok (num : BitVec 16) (clsB : BitVec 8) (ent : BitVec 16) (sz32 sz64 : Nat)
+    (h32 : sz32 < 65536) (h64 : sz64 < 65536)
+    (h : num.toNat ≠ 0 → (clsB = 1#8 → sz32 ≤ ent.toNat) ∧ (clsB = 2#8 → sz64 ≤ ent.toNat)) :
+    (((((BitVec.setWidth 32 num) != 0#32) && ((BitVec.setWidth 32 clsB) == (BitVec.setWidth 32 (BitVec.ofNat 8 Gen.ELFCLASS64)))) && (BitVec.ult (BitVec.setWidth 64 ent) (BitVec.ofNat 64 sz64))) || ((((BitVec.setWidth 32 num) != 0#32) && ((BitVec.setWidth 32 clsB) == (BitVec.setWidth 32 (BitVec.ofNat 8 Gen.ELFCLASS32)))) && (BitVec.ult (BitVec.setWidth 64 ent) (BitVec.ofNat 64 sz32)))) = false := by
+  by_cases hn : num.toNat = 0
+  · have : num = 0#16 := BitVec.eq_of_toNat_eq (by simpa using hn)
+    subst this; simp
+  · obtain ⟨a, b⟩ := h hn
+    have hne : (BitVec.setWidth 32 num != 0#32) = true := by
+      simp only [bne_iff_ne, ne_eq]
+      intro hh
+      have := congrArg BitVec.toNat hh
+      simp only [BitVec.toNat_setWidth, BitVec.toNat_ofNat, Nat.reducePow] at this
+      have := num.isLt
+      omega
+    have c64 : BitVec.setWidth 32 (BitVec.ofNat 8 Gen.ELFCLASS64) = 2#32 := by decide
+    have c32 : BitVec.setWidth 32 (BitVec.ofNat 8 Gen.ELFCLASS32) = 1#32 := by decide
+    rw [hne, c64, c32]
+    simp only [Bool.true_and, Bool.or_eq_false_iff, Bool.and_eq_false_iff]
+    have he := ent.isLt
+    constructor
+    · by_cases hc : clsB = 2#8
+      · right
+        have := b hc
+        simp only [BitVec.ult, BitVec.toNat_setWidth, BitVec.toNat_ofNat, Nat.reducePow, decide_eq_false_iff_not]
+        omega
+      · left
+        simp only [beq_eq_false_iff_ne, ne_eq]
+        intro hh; apply hc
+        apply BitVec.eq_of_toNat_eq
+        have := congrArg BitVec.toNat hh
+        simp only [BitVec.toNat_setWidth, BitVec.toNat_ofNat, Nat.reducePow] at this
+        have := clsB.isLt
+        simp only [BitVec.toNat_ofNat, Nat.reducePow]
+        omega
+    · by_cases hc : clsB = 1#8
+      · right
+        have := a hc
+        simp only [BitVec.ult, BitVec.toNat_setWidth, BitVec.toNat_ofNat, Nat.reducePow, decide_eq_false_iff_not]
+        omega
+      · left
+        simp only [beq_eq_false_iff_ne, ne_eq]
+        intro hh; apply hc
+        apply BitVec.eq_of_toNat_eq
+        have := congrArg BitVec.toNat hh
+        simp only [BitVec.toNat_setWidth, BitVec.toNat_ofNat, Nat.reducePow] at this
+        have := clsB.isLt
+        simp only [BitVec.toNat_ofNat, Nat.reducePow]
+        omega
+
+
+/-! ### small spec-to-model facts -/
+
+theorem cls_gate (img : Bytes)
+    (h : identByte img Spec.EI_CLASS = Spec.ELFCLASS32 ∨ identByte img Spec.EI_CLASS = Spec.ELFCLASS64) :
+    clsOfByte (img.getD Gen.EI_CLASS 0).toNat = some (clsOf img) := by
+  have e : (img.getD Gen.EI_CLASS 0).toNat = identByte img Spec.EI_CLASS := rfl
+  rw [e]
+  rcases h with h | h <;> rw [clsOf, h] <;> decide
+
+theorem enc_gate (img : Bytes)
+    (h : identByte img Spec.EI_DATA = Spec.ELFDATA2LSB ∨ identByte img Spec.EI_DATA = Spec.ELFDATA2MSB) :
+    encOfByte (img.getD Gen.EI_DATA 0).toNat = some (encOf img) := by
+  have e : (img.getD Gen.EI_DATA 0).toNat = identByte img Spec.EI_DATA := rfl
+  rw [e]
+  rcases h with h | h <;> rw [encOf, h] <;> decide
+
+theorem magic_gate (img : Bytes) (h : img.take 4 = Spec.ELFMAG) :
+    (img.getD 0 0).toNat = ELFMAG0 ∧ (img.getD 1 0).toNat = ELFMAG1 ∧
+    (img.getD 2 0).toNat = ELFMAG2 ∧ (img.getD 3 0).toNat = ELFMAG3 := by
+  have g : ∀ i, i < 4 → img.getD i 0 = (img.take 4).getD i 0 := by
+    intro i hi
+    simp [List.getD_eq_getElem?_getD, List.getElem?_take, hi]
+  rw [g 0 (by decide), g 1 (by decide), g 2 (by decide), g 3 (by decide), h]
+  decide
+
+theorem secData_take (img : Bytes) (b : SecBuf)
+    (hin : isNullOrNobitsTy b.stype = false → b.offset.toNat + b.size.toNat ≤ img.length) :
+    ((secData_ls img b).1.getD []).take b.size.toNat = secBytes img b := by
+  unfold secData_ls secBytes
+  cases hty : isNullOrNobitsTy b.stype
+  · have hi := hin hty
+    by_cases hz : b.size = 0
+    · simp [hz, slice]
+    · simp only [Bool.false_eq_true, if_false, hz, Option.getD_some]
+      have hl : (slice img b.offset.toNat b.size.toNat).length = b.size.toNat := slice_length_of_le hi
+      rw [List.take_append_of_le_length (by omega), List.take_of_length_le (by omega)]
+  · simp
+
+theorem secBytes_bridge (img : Bytes) (isLazy : Bool) (i : Nat)
+    (hk : shBase img i + shdrSize (clsOf img) ≤ img.length) :
+    secBytes img (secHdr (clsOf img) (encOf img) img (shBase img i) isLazy i) = secFileBytes img i := by
+  obtain ⟨_, h2, _, _, h5, h6, _⟩ := secHdr_bridge img (clsOf img) (encOf img) (shBase img i) isLazy i hk
+  unfold secBytes secFileBytes sh
+  rw [isNullOrNobits_eq, h2, h5, h6]
+  cases occupiesFile (Spec.get (Spec.shdrL (clsOf img)) (encOf img) img (shBase img i) "sh_type") <;> rfl
+
+
+/-! ### what the loaded object must show -/
+
+/-- the raw header struct is the file's first bytes and every getter returns the specification's
+    field -/
+def HeaderSpec (img : Bytes) (h : Bytes) : Prop :=
+  h = slice img 0 (Spec.ehdrSize (clsOf img)) ∧
+  (Hdr.e_type (clsOf img) (encOf img) h).toNat = eh img "e_type" ∧
+  (Hdr.e_machine (clsOf img) (encOf img) h).toNat = eh img "e_machine" ∧
+  (Hdr.e_version (clsOf img) (encOf img) h).toNat = eh img "e_version" ∧
+  (Hdr.e_entry (clsOf img) (encOf img) h).toNat = eh img "e_entry" ∧
+  (Hdr.e_phoff (clsOf img) (encOf img) h).toNat = eh img "e_phoff" ∧
+  (Hdr.e_shoff (clsOf img) (encOf img) h).toNat = eh img "e_shoff" ∧
+  (Hdr.e_flags (clsOf img) (encOf img) h).toNat = eh img "e_flags" ∧
+  (Hdr.e_ehsize (clsOf img) (encOf img) h).toNat = eh img "e_ehsize" ∧
+  (Hdr.e_phentsize (clsOf img) (encOf img) h).toNat = eh img "e_phentsize" ∧
+  (Hdr.e_phnum (clsOf img) (encOf img) h).toNat = eh img "e_phnum" ∧
+  (Hdr.e_shentsize (clsOf img) (encOf img) h).toNat = eh img "e_shentsize" ∧
+  (Hdr.e_shnum (clsOf img) (encOf img) h).toNat = eh img "e_shnum" ∧
+  (Hdr.e_shstrndx (clsOf img) (encOf img) h).toNat = eh img "e_shstrndx"
+
+/-- section `i` : every header field, the name, and the data a request delivers on any stream
+    over the image (whatever its position / error state) -/
+def SectionSpec (img : Bytes) (i : Nat) (b : SecBuf) : Prop :=
+  b.index = i ∧
+  b.nameOff.toNat = sh img i "sh_name" ∧ b.stype.toNat = sh img i "sh_type" ∧
+  b.flags.toNat = sh img i "sh_flags" ∧ b.addr.toNat = sh img i "sh_addr" ∧
+  b.offset.toNat = sh img i "sh_offset" ∧ b.size.toNat = sh img i "sh_size" ∧
+  b.link.toNat = sh img i "sh_link" ∧ b.info.toNat = sh img i "sh_info" ∧
+  b.addrAlign.toNat = sh img i "sh_addralign" ∧ b.entSize.toNat = sh img i "sh_entsize" ∧
+  b.name = secName img i ∧
+  ∀ ls : LoadSt, ls.st.data = img →
+    (((secGetData (clsOf img) [] ls b).2.data.getD []).take (secGetData (clsOf img) [] ls b).2.size.toNat
+      = secFileBytes img i)
+
+def SegmentSpec (img : Bytes) (j : Nat) (g : Seg) : Prop :=
+  g.index = j ∧
+  g.stype.toNat = ph img j "p_type" ∧ g.flags.toNat = ph img j "p_flags" ∧
+  g.offset.toNat = ph img j "p_offset" ∧ g.vaddr.toNat = ph img j "p_vaddr" ∧
+  g.paddr.toNat = ph img j "p_paddr" ∧ g.filesz.toNat = ph img j "p_filesz" ∧
+  g.memsz.toNat = ph img j "p_memsz" ∧ g.align.toNat = ph img j "p_align" ∧
+  g.secs.map (·.toNat) = members img j ∧
+  ∀ ls : LoadSt, ls.st.data = img →
+    (((segGetData (clsOf img) [] ls g).2.data.getD []).take g.filesz.toNat = segFileBytes img j)
+
+/-- section rung, per section: a section in the state the loader leaves it shows the specification's
+    values -/
+theorem SectionSpec_of_SecSt (img : Bytes) (isLazy : Bool) (i : Nat) (res : Bool) (b : SecBuf)
+    (h63 : img.length < 9223372036854775808)
+    (hk : shBase img i + shdrSize (clsOf img) ≤ img.length)
+    (hin : SecInside img.length (secHdr (clsOf img) (encOf img) img (shBase img i) isLazy i))
+    (hb : SecSt (clsOf img) (encOf img) img (shBase img i) isLazy i res (secName img i) b) :
+    SectionSpec img i b := by
+  obtain ⟨f1, f2, f3, f4, f5, f6, f7, f8, f9, f10⟩ :=
+    secHdr_bridge img (clsOf img) (encOf img) (shBase img i) isLazy i hk
+  have hidx : (secHdr (clsOf img) (encOf img) img (shBase img i) isLazy i).index = i := by
+    simp [secHdr, secInit]
+  obtain ⟨fd, L, hbe, hL⟩ := id hb
+  refine ⟨by rw [hbe]; exact hidx, by rw [hbe]; exact f1, by rw [hbe]; exact f2, by rw [hbe]; exact f3,
+    by rw [hbe]; exact f4, by rw [hbe]; exact f5, by rw [hbe]; exact f6, by rw [hbe]; exact f7,
+    by rw [hbe]; exact f8, by rw [hbe]; exact f9, by rw [hbe]; exact f10, by rw [hbe], ?_⟩
+  intro ls hd
+  obtain ⟨⟨fd', L', hg, _⟩, _⟩ := secGetData_SecSt _ _ img _ isLazy i res _ b ls hd h63 hin hb
+  rw [hg]
+  simp only [if_true]
+  rw [secData_take img _ hin, secBytes_bridge img isLazy i hk]
+
+
+theorem segData_take (img : Bytes) (j : Nat) (isLazy : Bool)
+    (hk : phBase img j + phdrSize (clsOf img) ≤ img.length)
+    (hin : SegInside img.length (segHdr_ls (clsOf img) (encOf img) img (phBase img j) isLazy)) :
+    ((segData img (segHdr_ls (clsOf img) (encOf img) img (phBase img j) isLazy)).getD []).take
+        (segHdr_ls (clsOf img) (encOf img) img (phBase img j) isLazy).filesz.toNat = segFileBytes img j := by
+  obtain ⟨g1, _, g3, _, _, g6, _, _⟩ := segHdr_bridge img (clsOf img) (encOf img) (phBase img j) isLazy hk
+  unfold segData segFileBytes segHasData ph
+  have hs := segSkip_eq (segHdr_ls (clsOf img) (encOf img) img (phBase img j) isLazy)
+  rw [g1, g6] at hs
+  cases hsk : segSkip (segHdr_ls (clsOf img) (encOf img) img (phBase img j) isLazy)
+  · have hi := hin hsk
+    rw [hsk] at hs
+    have hs' : (Spec.get (Spec.phdrL (clsOf img)) (encOf img) img (phBase img j) "p_type" != Spec.PT_NULL &&
+        Spec.get (Spec.phdrL (clsOf img)) (encOf img) img (phBase img j) "p_filesz" != 0) = true := by
+      simp only [bne, ← Bool.not_or, ← hs, Bool.not_false]
+    simp only [hs', if_true, Bool.false_eq_true, if_false, Option.getD_some]
+    have hl : (slice img (segHdr_ls (clsOf img) (encOf img) img (phBase img j) isLazy).offset.toNat
+        (segHdr_ls (clsOf img) (encOf img) img (phBase img j) isLazy).filesz.toNat).length =
+        (segHdr_ls (clsOf img) (encOf img) img (phBase img j) isLazy).filesz.toNat := slice_length_of_le hi
+    rw [List.take_append_of_le_length (by omega), List.take_of_length_le (by omega), g3, g6]
+  · rw [hsk] at hs
+    have hs' : (Spec.get (Spec.phdrL (clsOf img)) (encOf img) img (phBase img j) "p_type" != Spec.PT_NULL &&
+        Spec.get (Spec.phdrL (clsOf img)) (encOf img) img (phBase img j) "p_filesz" != 0) = false := by
+      simp only [bne, ← Bool.not_or, ← hs, Bool.not_true]
+    simp [hs']
+
+/-- segment rung, per segment (including membership) -/
+theorem SegmentSpec_of_segFinal (img : Bytes) (isLazy : Bool) (j : Nat) (secs : List SecBuf)
+    (h63 : img.length < 9223372036854775808)
+    (hk : phBase img j + phdrSize (clsOf img) ≤ img.length)
+    (hin : SegInside img.length (segHdr_ls (clsOf img) (encOf img) img (phBase img j) isLazy))
+    (hw1 : ph img j "p_vaddr" + ph img j "p_memsz" < 18446744073709551616)
+    (hw2 : ph img j "p_offset" + ph img j "p_filesz" < 18446744073709551616)
+    (hlen : secs.length = eh img "e_shnum") (hn : eh img "e_shnum" < 65536)
+    (hsecs : ∀ i (h : i < secs.length), SectionSpec img i secs[i] ∧
+      sh img i "sh_addr" + sh img i "sh_size" < 18446744073709551616 ∧
+      sh img i "sh_offset" + sh img i "sh_size" < 18446744073709551616) :
+    SegmentSpec img j (segFinal (clsOf img) (encOf img) img (phBase img j) isLazy j secs) := by
+  obtain ⟨g1, g2, g3, g4, g5, g6, g7, g8⟩ := segHdr_bridge img (clsOf img) (encOf img) (phBase img j) isLazy hk
+  refine ⟨rfl, g1, g2, g3, g4, g5, g6, g7, g8, ?_, ?_⟩
+  · show ((secs.filter (memberOf (segHdr_ls (clsOf img) (encOf img) img (phBase img j) isLazy))).map
+        (fun b => BitVec.ofNat 16 b.index)).map (·.toNat) = members img j
+    rw [List.map_map]
+    unfold members
+    rw [← hlen]
+    apply filter_index_range
+    · intro i h
+      have := (hsecs i h).1.1
+      simp only [Function.comp, this, BitVec.toNat_ofNat, Nat.reducePow]
+      omega
+    · intro i h
+      obtain ⟨⟨_, _, _, s3, s4, s5, s6, _⟩, w1, w2⟩ := hsecs i h
+      rw [member_eq_spec _ secs[i] (by rw [s4, s6]; exact w1) (by rw [s5, s6]; exact w2)
+        (by rw [g4, g7]; exact hw1) (by rw [g3, g6]; exact hw2)]
+      rw [s3, s4, s5, s6, g1, g3, g4, g6, g7]
+      rfl
+  · intro ls hd
+    have h := segGetData_segFinal (clsOf img) (encOf img) img (phBase img j) isLazy j secs ls hd h63 hin
+    rw [h.1]
+    exact segData_take img j isLazy hk hin
+
+
+/-! ### per-record rungs at specification level -/
+
+/-- `section_impl::load` for section `i` of a well-formed image, on any good stream over it -/
+theorem secLoad_wf (img : Bytes) (hwf : WellFormedImage img) (i : Nat) (hi : i < eh img "e_shnum")
+    (ls : LoadSt) (isLazy : Bool) (hd : ls.st.data = img) (he : ls.st.eof = false) (hf : ls.st.fail = false) :
+    SecSt (clsOf img) (encOf img) img (shBase img i) isLazy i (!isLazy) []
+      (secLoad (clsOf img) (encOf img) [] ls (Int.ofNat (shBase img i)) isLazy i).2 ∧
+    (secLoad (clsOf img) (encOf img) [] ls (Int.ofNat (shBase img i)) isLazy i).2.size.toNat = sh img i "sh_size" ∧
+    (secLoad (clsOf img) (encOf img) [] ls (Int.ofNat (shBase img i)) isLazy i).2.offset.toNat = sh img i "sh_offset" ∧
+    (secLoad (clsOf img) (encOf img) [] ls (Int.ofNat (shBase img i)) isLazy i).2.stype.toNat = sh img i "sh_type" ∧
+    (isLazy = false → occupiesFile (sh img i "sh_type") = true → sh img i "sh_size" ≠ 0 →
+      (secLoad (clsOf img) (encOf img) [] ls (Int.ofNat (shBase img i)) isLazy i).2.data =
+        some (slice img (sh img i "sh_offset") (sh img i "sh_size") ++ [0])) ∧
+    (secLoad (clsOf img) (encOf img) [] ls (Int.ofNat (shBase img i)) isLazy i).1.st.data = img ∧
+    (secLoad (clsOf img) (encOf img) [] ls (Int.ofNat (shBase img i)) isLazy i).1.st.eof = false ∧
+    (secLoad (clsOf img) (encOf img) [] ls (Int.ofNat (shBase img i)) isLazy i).1.st.fail = false := by
+  obtain ⟨_, _, _, _, h63, _, _, hS, _⟩ := hwf
+  have hsz := sizes_eq (clsOf img)
+  rw [← hsz.2.1] at hS
+  obtain ⟨hk, hocc, _, _⟩ := hS i hi
+  obtain ⟨_, b2, _, _, b5, b6, _⟩ := secHdr_bridge img (clsOf img) (encOf img) (shBase img i) isLazy i hk
+  have hin : SecInside img.length (secHdr (clsOf img) (encOf img) img (shBase img i) isLazy i) := by
+    intro hty
+    rw [isNullOrNobits_eq, b2] at hty
+    rw [b5, b6]
+    have : occupiesFile (sh img i "sh_type") = true := by unfold sh; simpa using hty
+    exact hocc this
+  have hh := secLoad_inside' (clsOf img) (encOf img) ls (shBase img i) isLazy i he hf (by rw [hd]; exact h63)
+    (by rw [hd]; exact hk) (by rw [hd]; exact hin)
+  rw [hd] at hh
+  obtain ⟨hst, e1, e2, e3, _⟩ := hh
+  refine ⟨hst, ?_, ?_, ?_, ?_, e3, e1, e2⟩
+  · obtain ⟨fd, L, hb, _⟩ := hst; rw [hb]; exact b6
+  · obtain ⟨fd, L, hb, _⟩ := hst; rw [hb]; exact b5
+  · obtain ⟨fd, L, hb, _⟩ := hst; rw [hb]; exact b2
+  · intro hl ho hz
+    obtain ⟨fd, L, hb, _⟩ := hst
+    rw [hb, hl]
+    have hty : isNullOrNobitsTy (secHdr (clsOf img) (encOf img) img (shBase img i) false i).stype = false := by
+      rw [isNullOrNobits_eq]
+      have b2' := (secHdr_bridge img (clsOf img) (encOf img) (shBase img i) false i hk).2.1
+      rw [b2']; unfold sh at ho; simp [ho]
+    have b5' := (secHdr_bridge img (clsOf img) (encOf img) (shBase img i) false i hk).2.2.2.2.1
+    have b6' := (secHdr_bridge img (clsOf img) (encOf img) (shBase img i) false i hk).2.2.2.2.2.1
+    have hz' : ¬ (secHdr (clsOf img) (encOf img) img (shBase img i) false i).size = 0#64 := by
+      intro h
+      apply hz
+      unfold sh
+      rw [← b6', h]; rfl
+    simp [secData_ls, hty, b5', b6', sh]
+    rw [if_neg hz']
+
+/-- `segment_impl::load` for segment `j` of a well-formed image, on any good stream over it -/
+theorem segLoad_wf (img : Bytes) (hwf : WellFormedImage img) (j : Nat) (hj : j < eh img "e_phnum")
+    (ls : LoadSt) (isLazy : Bool) (hd : ls.st.data = img) (he : ls.st.eof = false) (hf : ls.st.fail = false) :
+    (segLoad (clsOf img) (encOf img) [] ls (Int.ofNat (phBase img j)) isLazy).2 =
+      ({ segHdr_ls (clsOf img) (encOf img) img (phBase img j) isLazy with
+           data := if isLazy then none else segData img (segHdr_ls (clsOf img) (encOf img) img (phBase img j) isLazy),
+           isLoaded := !isLazy && !segSkip (segHdr_ls (clsOf img) (encOf img) img (phBase img j) isLazy) }, true) ∧
+    (isLazy = false →
+      (((segLoad (clsOf img) (encOf img) [] ls (Int.ofNat (phBase img j)) isLazy).2.1.data.getD []).take
+        (ph img j "p_filesz") = segFileBytes img j)) ∧
+    (segLoad (clsOf img) (encOf img) [] ls (Int.ofNat (phBase img j)) isLazy).1.st.data = img ∧
+    (segLoad (clsOf img) (encOf img) [] ls (Int.ofNat (phBase img j)) isLazy).1.st.eof = false ∧
+    (segLoad (clsOf img) (encOf img) [] ls (Int.ofNat (phBase img j)) isLazy).1.st.fail = false := by
+  obtain ⟨_, _, _, _, h63, _, _, _, hP, _⟩ := hwf
+  have hsz := sizes_eq (clsOf img)
+  rw [← hsz.2.2] at hP
+  obtain ⟨hk, hhas, _, _⟩ := hP j hj
+  obtain ⟨b1, _, b3, _, _, b6, _, _⟩ := segHdr_bridge img (clsOf img) (encOf img) (phBase img j) isLazy hk
+  have hin : SegInside img.length (segHdr_ls (clsOf img) (encOf img) img (phBase img j) isLazy) := by
+    intro hsk
+    rw [segSkip_eq, b1, b6] at hsk
+    rw [b3, b6]
+    apply hhas
+    unfold segHasData ph
+    simp only [bne, ← Bool.not_or, hsk, Bool.not_false]
+  have hh := segLoad_inside (clsOf img) (encOf img) ls (phBase img j) isLazy he hf (by rw [hd]; exact h63)
+    (by rw [hd]; exact hk) (by rw [hd]; exact hin)
+  rw [hd] at hh
+  obtain ⟨e0, e1, e2, e3, _⟩ := hh
+  refine ⟨e0, ?_, e3, e1, e2⟩
+  intro hl
+  rw [e0]
+  subst hl
+  simp only [Bool.false_eq_true, if_false]
+  have := segData_take img j false hk hin
+  rw [b6] at this
+  exact this
+
+
+/-- what `load` must produce for image `img` -/
+def LoadSpec (img : Bytes) (r : LoadRes) : Prop :=
+  r.ok = true ∧ r.obj.cls = clsOf img ∧ r.obj.enc = encOf img ∧
+  (∃ h, r.obj.hdr = some h ∧ HeaderSpec img h) ∧
+  r.obj.stream.data = img ∧ r.obj.stream.eof = false ∧ r.obj.stream.fail = false ∧
+  r.obj.secs.length = eh img "e_shnum" ∧
+  (∀ i (hi : i < r.obj.secs.length), SectionSpec img i r.obj.secs[i]) ∧
+  r.obj.segs.length = eh img "e_phnum" ∧
+  (∀ j (hj : j < r.obj.segs.length), SegmentSpec img j r.obj.segs[j])
+
+theorem identB (img : Bytes) (c : Cls) (hl : ehdrSize c ≤ img.length) :
+    Hdr.ident (slice img 0 (ehdrSize c)) Gen.EI_CLASS = BitVec.ofNat 8 (identByte img Spec.EI_CLASS) := by
+  unfold Hdr.ident identByte
+  have : Gen.EI_CLASS < ehdrSize c := by cases c <;> decide
+  rw [getD_slice0 img (ehdrSize c) Gen.EI_CLASS this]
+  rfl
+
+/-- **C02, whole load** : for every well-formed image of either class and byte order, loaded
+    eagerly or lazily from a string- or file-backed stream (no address translation), `load`
+    succeeds and the object shows exactly what the specification says is in the file -/
+theorem load_eq_spec (img : Bytes) (o : Obj) (k : StreamKind) (isLazy : Bool) (htr : o.trans = [])
+    (hwf : WellFormedImage img) :
+    ∃ r : LoadRes, load o { data := img, kind := k } isLazy = .ok r ∧ LoadSpec img r := by
+  obtain ⟨hmag, hcls, hdat, hehs, h63, hshent, hphent, hS, hP, hndx, hnames⟩ := hwf
+  have hsz := sizes_eq (clsOf img)
+  rw [← hsz.1] at hehs
+  rw [← hsz.2.1] at hshent hS
+  rw [← hsz.2.2] at hphent hP
+  obtain ⟨m0, m1, m2, m3⟩ := magic_gate img hmag
+  have hgate := load_gate o { data := img, kind := k } isLazy (clsOf img) (encOf img) htr rfl rfl m0 m1 m2 m3
+    (cls_gate img hcls) (enc_gate img hdat) hehs
+  simp only [] at hgate
+  obtain ⟨e1, e2, e3, e4, e5, e6, e7, e8, e9, e10, e11, e12, e13⟩ := ehdr_bridge img (clsOf img) (encOf img) hehs
+  have E : ∀ f, Spec.get (Spec.ehdrL (clsOf img)) (encOf img) img 0 f = eh img f := fun _ => rfl
+  rw [E] at e1 e2 e3 e4 e5 e6 e7 e8 e9 e10 e11 e12 e13
+  have hshnum : (Hdr.e_shnum (clsOf img) (encOf img) (slice img 0 (ehdrSize (clsOf img)))).toNat = eh img "e_shnum" := e12
+  have hphnum : (Hdr.e_phnum (clsOf img) (encOf img) (slice img 0 (ehdrSize (clsOf img)))).toNat = eh img "e_phnum" := e10
+  have hshb : ∀ j, (Hdr.e_shoff (clsOf img) (encOf img) (slice img 0 (ehdrSize (clsOf img)))).toNat +
+      j * (Hdr.e_shentsize (clsOf img) (encOf img) (slice img 0 (ehdrSize (clsOf img)))).toNat = shBase img j := by
+    intro j; rw [e6, e11]; rfl
+  have hphb : ∀ j, (Hdr.e_phoff (clsOf img) (encOf img) (slice img 0 (ehdrSize (clsOf img)))).toNat +
+      j * (Hdr.e_phentsize (clsOf img) (encOf img) (slice img 0 (ehdrSize (clsOf img)))).toNat = phBase img j := by
+    intro j; rw [e5, e9]; rfl
+  have hcb := identB img (clsOf img) hehs
+  have hc1 : BitVec.ofNat 8 (identByte img Spec.EI_CLASS) = 1#8 → clsOf img = .c32 := by
+    intro h
+    rcases hcls with h' | h'
+    · simp [clsOf, h']; decide
+    · rw [h'] at h; exact absurd h (by decide)
+  have hc2 : BitVec.ofNat 8 (identByte img Spec.EI_CLASS) = 2#8 → clsOf img = .c64 := by
+    intro h
+    rcases hcls with h' | h'
+    · rw [h'] at h; exact absurd h (by decide)
+    · simp [clsOf, h']
+  -- entry sizes
+  have hbadS : load_sections_entsize_bad (Hdr.e_shnum (clsOf img) (encOf img) (slice img 0 (ehdrSize (clsOf img))))
+      (Hdr.ident (slice img 0 (ehdrSize (clsOf img))) Gen.EI_CLASS)
+      (Hdr.e_shentsize (clsOf img) (encOf img) (slice img 0 (ehdrSize (clsOf img)))) = false := by
+    unfold load_sections_entsize_bad
+    apply entsize_ok _ _ _ sizeof_Elf32_Shdr sizeof_Elf64_Shdr (by decide) (by decide)
+    intro hn
+    rw [hshnum] at hn
+    have := hshent hn
+    rw [← e11] at this
+    rw [hcb]
+    constructor
+    · intro h; have hcl := hc1 h; rw [hcl] at this ⊢; exact this
+    · intro h; have hcl := hc2 h; rw [hcl] at this ⊢; exact this
+  have hbadP : load_segments_entsize_bad (Hdr.e_phnum (clsOf img) (encOf img) (slice img 0 (ehdrSize (clsOf img))))
+      (Hdr.ident (slice img 0 (ehdrSize (clsOf img))) Gen.EI_CLASS)
+      (Hdr.e_phentsize (clsOf img) (encOf img) (slice img 0 (ehdrSize (clsOf img)))) = false := by
+    unfold load_segments_entsize_bad
+    apply entsize_ok _ _ _ sizeof_Elf32_Phdr sizeof_Elf64_Phdr (by decide) (by decide)
+    intro hn
+    rw [hphnum] at hn
+    have := hphent hn
+    rw [← e9] at this
+    rw [hcb]
+    constructor
+    · intro h; have hcl := hc1 h; rw [hcl] at this ⊢; exact this
+    · intro h; have hcl := hc2 h; rw [hcl] at this ⊢; exact this
+  -- every record and every range inside
+  have hinS : ∀ j, j < eh img "e_shnum" →
+      SecInside img.length (secHdr (clsOf img) (encOf img) img (shBase img j) isLazy j) := by
+    intro j hj hty
+    obtain ⟨hk, hocc, _, _⟩ := hS j hj
+    obtain ⟨_, b2, _, _, b5, b6, _⟩ := secHdr_bridge img (clsOf img) (encOf img) (shBase img j) isLazy j hk
+    rw [isNullOrNobits_eq, b2] at hty
+    rw [b5, b6]
+    have : occupiesFile (sh img j "sh_type") = true := by unfold sh; simpa using hty
+    exact hocc this
+  have hinP : ∀ j, j < eh img "e_phnum" →
+      SegInside img.length (segHdr_ls (clsOf img) (encOf img) img (phBase img j) isLazy) := by
+    intro j hj hsk
+    obtain ⟨hk, hhas, _, _⟩ := hP j hj
+    obtain ⟨b1, _, b3, _, _, b6, _, _⟩ := segHdr_bridge img (clsOf img) (encOf img) (phBase img j) isLazy hk
+    rw [segSkip_eq, b1, b6] at hsk
+    rw [b3, b6]
+    apply hhas
+    unfold segHasData ph
+    simp only [bne, ← Bool.not_or, hsk, Bool.not_false]
+  have hbody := loadBody_inside
+    { o with secs := [], segs := [], cls := clsOf img, enc := encOf img,
+             hdr := some (slice img 0 (ehdrSize (clsOf img))) }
+    (clsOf img) (encOf img) isLazy (slice img 0 (ehdrSize (clsOf img))) img
+    { data := img, pos := ehdrSize (clsOf img), gcount := ehdrSize (clsOf img), kind := k }
+    htr rfl rfl rfl h63 hbadS hbadP
+    (fun j hj => by rw [hshnum] at hj; rw [hshb]; exact ⟨(hS j hj).1, hinS j hj⟩)
+    (fun j hj => by rw [hphnum] at hj; rw [hphb]; exact ⟨(hP j hj).1, hinP j hj⟩)
+    (by rw [e13, hshnum]; exact hndx)
+  obtain ⟨r, hr, r1, r2, r3, r4, r5, r6, r7, r8, r9, r10, r11, r12, r13⟩ := hbody
+  have hsecAll : ∀ i (hi : i < r.obj.secs.length), SectionSpec img i r.obj.secs[i] := by
+    intro i hi
+    have hi' : i < eh img "e_shnum" := by rw [r10, hshnum] at hi; exact hi
+    obtain ⟨res, hst, _⟩ := r11 i hi
+    rw [hshb] at hst
+    apply SectionSpec_of_SecSt img isLazy i res _ h63 (hS i hi').1 (hinS i hi')
+    -- the resolved name is the specification's
+    have hname : nameOf (strtabOf (clsOf img) (encOf img) img
+          (Hdr.e_shoff (clsOf img) (encOf img) (slice img 0 (ehdrSize (clsOf img)))).toNat
+          (Hdr.e_shentsize (clsOf img) (encOf img) (slice img 0 (ehdrSize (clsOf img)))).toNat isLazy
+          (Hdr.e_shstrndx (clsOf img) (encOf img) (slice img 0 (ehdrSize (clsOf img)))).toNat)
+        (secHdr (clsOf img) (encOf img) img (shBase img i) isLazy i).nameOff.toNat = secName img i := by
+      have b1 := (secHdr_bridge img (clsOf img) (encOf img) (shBase img i) isLazy i (hS i hi').1).1
+      unfold nameOf strtabOf secName shstrtab
+      rw [e13, b1]
+      by_cases hz : eh img "e_shstrndx" = 0
+      · rw [hz]; rfl
+      · have hz' : ¬ eh img "e_shstrndx" = Spec.SHN_UNDEF := hz
+        have hlt : eh img "e_shstrndx" < eh img "e_shnum" := by
+          rcases hndx with h | h
+          · exact absurd h hz'
+          · exact h
+        simp only [hz, hz', if_false]
+        rw [hshb, secBytes_bridge img isLazy _ (hS _ hlt).1]
+        rfl
+    rw [hname] at hst
+    exact hst
+  refine ⟨r, by rw [hgate]; exact hr, r1, r2, r3, ⟨_, r4, ?_⟩, r6, r7, r8, by rw [r10, hshnum], hsecAll,
+    by rw [r12, hphnum], ?_⟩
+  · exact ⟨by rw [hsz.1], e1, e2, e3, e4, e5, e6, e7, e8, e9, e10, e11, e12, e13⟩
+  · -- segments
+    intro j hj
+    have hj' : j < eh img "e_phnum" := by rw [r12, hphnum] at hj; exact hj
+    rw [r13 j hj, hphb]
+    have hn16 : eh img "e_shnum" < 65536 := by
+      rw [← hshnum]; exact (Hdr.e_shnum _ _ _).isLt
+    apply SegmentSpec_of_segFinal img isLazy j r.obj.secs h63 (hP j hj').1 (hinP j hj') (hP j hj').2.2.1
+      (hP j hj').2.2.2 (by rw [r10, hshnum]) hn16
+    intro i hi
+    have hi' : i < eh img "e_shnum" := by rw [r10, hshnum] at hi; exact hi
+    exact ⟨hsecAll i hi, (hS i hi').2.2.1, (hS i hi').2.2.2⟩
+
+/-- with terminated names the reported name *is* the specification's C string -/
+theorem name_eq_cstr (img : Bytes) (hwf : WellFormedImage img) (i : Nat) (hi : i < eh img "e_shnum")
+    (hndx : eh img "e_shstrndx" ≠ Spec.SHN_UNDEF) :
+    Spec.cstrAt (secFileBytes img (eh img "e_shstrndx")) (sh img i "sh_name") = some (secName img i) := by
+  have h := hwf.2.2.2.2.2.2.2.2.2.2 hndx i hi
+  unfold secName shstrtab
+  simp only [hndx, if_false]
+  cases hc : Spec.cstrAt (secFileBytes img (eh img "e_shstrndx")) (sh img i "sh_name") with
+  | none => rw [hc] at h; exact absurd h (by simp)
+  | some s => rfl
+
+/-! ### non-vacuity : a concrete well-formed image (ELF32/LSB, one PT_LOAD, `.text`, `.shstrtab`) -/
+
+def wfImage : Bytes :=
+  [127, 69, 76, 70, 1, 1, 1, 0, 0, 0, 0, 0, 0, 0, 0, 0, 2, 0, 3, 0, 1, 0, 0, 0, 0, 16, 0, 0, 52, 0, 0, 0, 108, 0, 0, 0, 0, 0, 0, 0, 52, 0, 32, 0, 1, 0, 40, 0, 3, 0, 2, 0, 1, 0, 0, 0, 84, 0, 0, 0, 0, 16, 0, 0, 0, 16, 0, 0, 4, 0, 0, 0, 4, 0, 0, 0, 5, 0, 0, 0, 4, 0, 0, 0, 1, 2, 3, 4, 0, 46, 116, 101, 120, 116, 0, 46, 115, 104, 115, 116, 114, 116, 97, 98, 0, 0, 0, 0, 0, 0, 0, 0, 0, 0, 0, 0, 0, 0, 0, 0, 0, 0, 0, 0, 0, 0, 0, 0, 0, 0, 0, 0, 0, 0, 0, 0, 0, 0, 0, 0, 0, 0, 0, 0, 0, 0, 0, 0, 1, 0, 0, 0, 1, 0, 0, 0, 6, 0, 0, 0, 0, 16, 0, 0, 84, 0, 0, 0, 4, 0, 0, 0, 0, 0, 0, 0, 0, 0, 0, 0, 4, 0, 0, 0, 0, 0, 0, 0, 7, 0, 0, 0, 3, 0, 0, 0, 0, 0, 0, 0, 0, 0, 0, 0, 88, 0, 0, 0, 17, 0, 0, 0, 0, 0, 0, 0, 0, 0, 0, 0, 1, 0, 0, 0, 0, 0, 0, 0]
+
+example : WellFormedImage wfImage := by decide +kernel
+example : eh wfImage "e_shnum" = 3 ∧ eh wfImage "e_phnum" = 1 ∧ secName wfImage 1 = [0x2e, 0x74, 0x65, 0x78, 0x74] ∧
+    secFileBytes wfImage 1 = [1, 2, 3, 4] ∧ members wfImage 0 = [1] := by decide +kernel
+/-- the theorem applies to it (both modes, both stream kinds) -/
+example (k : StreamKind) (isLazy : Bool) :
+    ∃ r, load {} { data := wfImage, kind := k } isLazy = .ok r ∧ LoadSpec wfImage r :=
+  load_eq_spec wfImage {} k isLazy rfl (by decide +kernel)
 
 end ElfioVerif.C02
